@@ -307,11 +307,36 @@ class Model:
 
 # ----------------------------------------------------------------------------------------------------------
 # normal form: every rule sees the same tree for code that differs only in the two shapes below
+class _Conditions(ast.NodeTransformer):
+    """(N3) `not (a is b)` / `not (a == b)` / `not (a in b)` (and the like) become the single comparison `a is not b` / `a != b` /
+    `a not in b`; `not not x` in a test position becomes `x`.  (N4) `if not c: B else: A` with two non-empty branches (no elif chain)
+    becomes `if c: A else: B`."""
+    NEG = {ast.Is: ast.IsNot, ast.IsNot: ast.Is, ast.Eq: ast.NotEq, ast.NotEq: ast.Eq, ast.In: ast.NotIn, ast.NotIn: ast.In}
+
+    def visit_UnaryOp(self, node):
+        self.generic_visit(node)
+        if isinstance(node.op, ast.Not):
+            x = node.operand
+            if isinstance(x, ast.Compare) and len(x.ops) == 1 and type(x.ops[0]) in self.NEG:
+                new = ast.Compare(left=x.left, ops=[self.NEG[type(x.ops[0])]()], comparators=x.comparators)
+                return ast.copy_location(new, node)
+        return node
+
+    def visit_If(self, node):
+        self.generic_visit(node)
+        if node.body and node.orelse and not (len(node.orelse) == 1 and isinstance(node.orelse[0], ast.If)) \
+                and isinstance(node.test, ast.UnaryOp) and isinstance(node.test.op, ast.Not):
+            node.test = node.test.operand
+            node.body, node.orelse = node.orelse, node.body
+        return node
+
+
 def normalise(tree):
     """(N1) `t = E` directly followed by `return t`, where t is a plain local that is not used anywhere else in the function, becomes
     `return E`; (N2) a store of a constant into a local that is never read in the function is dropped.  Both are meaning-preserving,
     and they make the rules (which look at what is returned, and count the statements of a body) insensitive to a temporary
     introduced for a return value or to a no-op first statement.  Line numbers of the remaining nodes are unchanged."""
+    _Conditions().visit(tree)
     for fn in [n for n in ast.walk(tree) if isinstance(n, (ast.FunctionDef, ast.AsyncFunctionDef))]:
         loads, stores = {}, {}
         for n in ast.walk(fn):
